@@ -30,7 +30,13 @@ pub fn worker_main(def: &PropDef, tier: Tier, seed: u64, start: u64, stride: u64
     };
     let stdout = std::io::stdout();
     let mut k = start;
-    while k < total {
+    // A simulated internet does not give all of its memory back when a run ends (machines and their tasks
+    // reference each other), so a worker process retires after a batch of scenarios; the shard driver starts a
+    // fresh one where this one stopped.
+    let batch: u64 = std::env::var("VERIF_WORKER_BATCH").ok().and_then(|s| s.parse().ok()).unwrap_or(64);
+    let mut done_here = 0u64;
+    while k < total && done_here < batch {
+        done_here += 1;
         {
             let mut o = stdout.lock();
             writeln!(o, "B {k}").unwrap();
@@ -175,10 +181,8 @@ fn run_shard(
             None => match last_done {
                 // died between scenarios: nothing to attribute, continue after it
                 Some(k) => {
+                    // (a worker that retired after its batch ends up here as well)
                     next = k + stride;
-                    if status.map(|s| s.success()).unwrap_or(false) {
-                        break;
-                    }
                     continue;
                 }
                 None => next,
